@@ -172,7 +172,19 @@ def gen_minor(seed, shard, n):
         if e < 1.0 and q / (1.0 - e) > 2000.0:
             continue
         try:
-            m = Minor(q, e, Angle(inc), Angle(node), Angle(argp), Epoch(T))
+            if rng.random() < 0.3:
+                # a long-lived body: it has already answered for OTHER elements (another conic, another orientation, another
+                # perihelion time), then set() gives it these
+                m = Minor(rng.choice([0.6, 1.2, 3.0]), rng.choice([0.3, 0.99, 1.0]), Angle(rng.uniform(1, 179)), Angle(rng.uniform(0, 360)),
+                          Angle(rng.uniform(0, 360)), Epoch(T + rng.uniform(-300, 300)))
+                try:
+                    m.geocentric_position(Epoch(t))
+                    m.heliocentric_ecliptical_position(Epoch(t))
+                except Exception:
+                    pass
+                m.set(q, e, Angle(inc), Angle(node), Angle(argp), Epoch(T))
+            else:
+                m = Minor(q, e, Angle(inc), Angle(node), Angle(argp), Epoch(T))
             ep = Epoch(t)
             jb = ep.jde()
             ra, dec, elong = m.geocentric_position(ep)
